@@ -4,7 +4,7 @@
            crash states (every prefix of the operation list plus every byte-granular tear of the next
            write: assumption A1 with B = 1 for temp files), the readers, and the operation lists of
              mapproxy/util/fs.py     write_atomic
-             mapproxy/cache/file.py  FileCache._store / _store_single_color_tile / store_tile
+             mapproxy/cache/file.py  FileCache._store / _store_single_color_tile (as repaired: link under a temp name, then rename) / store_tile
              mapproxy/cache/legend.py LegendCache.store, mapproxy/seed/util.py ProgressStore.write,
              bundle / index initialisation of mapproxy/cache/compact.py  (all: plain write_atomic).
    Part 2: compact bundles (mapproxy/cache/compact.py) over the write-log files of Bytes.v: readers,
@@ -156,13 +156,22 @@ Definition store_plain_ops (s : fs) (p : path) (sfx d : list Z) : list fsop * bo
   let w := write_atomic_ops s p sfx d in
   (pre ++ fst w, snd w).
 
-(* --- FileCache._store_single_color_tile(tile, tile_loc, color), sc = _single_color_tile_location(color) *)
-Definition store_single_ops (s : fs) (p sc : path) (hard : bool) (sfx d : list Z) : list fsop :=
+(* --- FileCache._store_single_color_tile(tile, tile_loc, color), sc = _single_color_tile_location(color).
+   (repaired code) The colour file is created if missing; if tile_loc already is (a link to) the colour file
+   (`same` = os.path.exists(tile_loc) and os.path.samefile(sc, tile_loc), observed on the real file system:
+   inode identity is not part of this model) nothing else happens; otherwise the link is created under the temp
+   name tile_loc + '.tmp-N' and renamed over tile_loc.  EEXIST on the temp name: unlink it and re-raise. *)
+Definition link_op (hard : bool) (sc p : path) : fsop := if hard then OLink sc p else OSymlink sc p.
+
+Definition store_single_ops (s : fs) (p sc : path) (hard same : bool) (sfx sfx2 d : list Z) : list fsop :=
   let a := if exists_ s sc then ([], true) else store_plain_ops s sc sfx d in
   if snd a then
-    let s1 := apply_ops s (fst a) in
-    let b := if exists_ s1 p || is_link s1 p then [OUnlink p] else [] in
-    fst a ++ b ++ [if hard then OLink sc p else OSymlink sc p]
+    if same then fst a
+    else
+      let s1 := apply_ops s (fst a) in
+      let t := tmp_of p sfx2 in
+      if lexists s1 t then fst a ++ [OUnlink t]
+      else fst a ++ [link_op hard sc t; ORename t p]
   else fst a.
 
 Inductive link_mode := LNone | LSym | LHard.
@@ -172,7 +181,9 @@ Record file_req := mkReq {
   rq_data : list Z;           (* tile_buffer(tile).read() *)
   rq_mode : link_mode;        (* link_single_color_images: False / True / 'hardlink' *)
   rq_color : option path;     (* Some sc when is_single_color_image() finds a colour *)
-  rq_sfx : list Z             (* decimal digits of the random temp suffix *)
+  rq_sfx : list Z;            (* decimal digits of the random temp suffix of write_atomic *)
+  rq_sfx2 : list Z;           (* decimal digits of the random temp suffix of the link *)
+  rq_same : bool              (* tile_loc already is (a link to) the colour file (os.path.samefile) *)
 }.
 
 (* does this request go through _store_single_color_tile? *)
@@ -188,8 +199,8 @@ Definition file_store_ops (s : fs) (r : file_req) : list fsop :=
   match rq_mode r, rq_color r with
   | LNone, _ => fst (store_plain_ops s (rq_loc r) (rq_sfx r) (rq_data r))
   | _, None => fst (store_plain_ops s (rq_loc r) (rq_sfx r) (rq_data r))
-  | LSym, Some sc => store_single_ops s (rq_loc r) sc false (rq_sfx r) (rq_data r)
-  | LHard, Some sc => store_single_ops s (rq_loc r) sc true (rq_sfx r) (rq_data r)
+  | LSym, Some sc => store_single_ops s (rq_loc r) sc false (rq_same r) (rq_sfx r) (rq_sfx2 r) (rq_data r)
+  | LHard, Some sc => store_single_ops s (rq_loc r) sc true (rq_same r) (rq_sfx r) (rq_sfx2 r) (rq_data r)
   end.
 
 (* the bytes the address returns once the store has completed *)
